@@ -34,6 +34,8 @@ CONTAINERS = {
     "thorough": [("full-rel", ["--depth", "8", "--set", "full"]), ("full-dbg", ["--depth", "6", "--set", "full"]), ("nofin-rel", ["--depth", "7", "--set", "full"]), ("full-rel", ["--depth", "6", "--set", "full", "--n", "3"])],
 }
 
+MIXED = {"quick": [("full-dbg", ["--depth", "5"]), ("nofin-rel", ["--depth", "5"])],
+         "thorough": [("full-rel", ["--depth", "7"]), ("full-dbg", ["--depth", "6"]), ("nofin-rel", ["--depth", "6"])]}
 RCCHAIN = {"quick": [("full-dbg", ["--max-n", "520", "--extra", "1000,1023,1024,1025,2048,4096,10000"]), ("nofin-rel", ["--max-n", "130", "--extra", "1024,4096"]), ("min-dbg", ["--max-n", "130", "--extra", "1024"])],
            "thorough": [("full-rel", ["--max-n", "2100", "--extra", "4095,4096,4097,8192,10000,16384,20000"]), ("full-dbg", ["--max-n", "1100", "--extra", "2048,4096,10000"]), ("min-dbg", ["--max-n", "600", "--extra", "1024,4096"]), ("nofin-rel", ["--max-n", "600", "--extra", "1024,4096,10000"])]}
 CHAIN = {"quick": [("full-dbg", ["--max-n", "24"])], "thorough": [("full-dbg", ["--max-n", "40"]), ("full-rel", ["--max-n", "40"])]}
@@ -41,7 +43,7 @@ CHAIN = {"quick": [("full-dbg", ["--max-n", "24"])], "thorough": [("full-dbg", [
 ENGINES = {
     "C06": [sub_runs("chain", CHAIN)],
     "C04": [sub_runs("rcchain", RCCHAIN)],
-    "C03": [sub_runs("grid", GRID)],
+    "C03": [sub_runs("grid", GRID), sub_runs("mixed", MIXED)],
     "C13": [sub_runs("grid", GRID)],
     "C15": [sub_runs("policy", POLICY)],
     "C17": [sub_runs("probes", PROBES), sub_runs("containers", CONTAINERS)],
